@@ -51,6 +51,7 @@ class Built:
         self.fl = fl
         self.mk = mk  # number of meta keys in the model
         self.meta_dicts = {}  # update_meta(): the caller keeps and re-uses its dict objects
+        self.grave = []  # handles of removed nodes the caller still holds (trace.snapshot() collects them)
 
     def node(self, i):
         return self.tree if i == 0 else self.nodes[i]
@@ -370,6 +371,8 @@ def execute(b: Built, op: dict, src: Built | None = None, foreign_tree=None):
             elif name == "filter":
                 pred = make_predicate(b, seq(op["v"]), raise_form=op.get("raise", False))
                 r = b.node(op["p"]).filter(pred)
+            elif name == "stale":
+                r = _stale(b, op)
             else:
                 raise RuntimeError(f"harness: unknown op {name}")
         return "ok", r
@@ -379,6 +382,52 @@ def execute(b: Built, op: dict, src: Built | None = None, foreign_tree=None):
         return type(e).__name__, None
     except Exception as e:  # noqa: BLE001  (every escaping exception is an observation)
         return type(e).__name__, None
+
+
+STALE_WHATS = ("add", "prepend_sibling", "append_sibling", "move_to_root", "move_to_node", "move_into", "remove",
+               "remove_keep", "remove_children", "set_data", "sort", "set_meta", "add_node_into")
+
+
+def _stale(b: Built, op: dict):
+    """a call through the handle of a node that was removed from the tree earlier (op.g: index into b.grave)"""
+    if not b.grave:
+        raise RuntimeError("harness: stale op without a removed node")
+    g = b.grave[op["g"] % len(b.grave)]
+    fl, what = b.fl, op["what"]
+    live = b.nodes[op["x"]] if op.get("x") else b.tree
+    if what == "add":
+        g.add_child(fl.data(op["d"]))
+    elif what == "prepend_sibling":
+        g.prepend_sibling(fl.data(op["d"]))
+    elif what == "append_sibling":
+        g.append_sibling(fl.data(op["d"]))
+    elif what == "move_to_root":
+        g.move_to(b.tree)
+    elif what == "move_to_node":
+        g.move_to(live)
+    elif what == "move_into":
+        if live is b.tree:
+            raise ValueError("no live node to move")
+        live.move_to(g)
+    elif what == "remove":
+        g.remove()
+    elif what == "remove_keep":
+        g.remove(keep_children=True)
+    elif what == "remove_children":
+        g.remove_children()
+    elif what == "set_data":
+        g.set_data(fl.data(op["d"]))
+    elif what == "sort":
+        g.sort_children()
+    elif what == "set_meta":
+        g.set_meta(META_KEYS[1], 1)
+    elif what == "add_node_into":
+        if live is b.tree:
+            raise ValueError("no live node to copy")
+        g.add_child(live)
+    else:
+        raise RuntimeError(f"harness: unknown stale call {what}")
+    return None
 
 
 def op_applicable(op: dict, fl: Flavour) -> bool:
